@@ -127,7 +127,7 @@ DIRECTED = (
     "phylip-strict-10-char-labels", "nexml-unnamed-multistate", "nexml-rejects-nucleotide-infinite",
     "gap-missing-every-type", "two-otus-nexml", "standard-custom-alphabet-export", "cli-subprocess-nexus-phylip", "cli-subprocess-fasta-nexus",
     "cli-subprocess-phylip-nexml", "special-chars-each-position", "digit-labels", "fasta-wrap-boundary",
-    "standard-concatenated-nexml",
+    "standard-concatenated-nexml", "history-unnamed-multistate-pollutes-global-alphabet",
 )
 
 
@@ -1537,6 +1537,32 @@ def run_directed(case, ctx, rng, S, tmp):
                   info={"directed": name})
         if fmt == "nexml":
             roundtrip(ctx, rng, S, m, None, got, dtype, alphabet, fmt, "seqs", info={"directed": name})
+    elif name == "history-unnamed-multistate-pollutes-global-alphabet":
+        # a HISTORY, not a single conversion: (1) a DNA matrix is read from NEXUS with a polymorphic token that has no
+        # IUPAC code; the reader registers a symbol-less state in the library-wide DNA alphabet; (2) an unrelated DNA
+        # matrix written to NeXML afterwards in the same process defines that state with symbol "None" and cannot be read back.
+        # (the harness undoes such additions after every case - see restore_global_alphabets - so that cases stay independent;
+        # this case is where their effect is judged)
+        m1 = d.DnaCharacterMatrix.from_dict({"a": "ACGT", "b": "AC-T"})
+        model1 = extract(m1)
+        before = m1.as_string("nexml")
+        nx = "#NEXUS\nbegin data; dimensions ntax=2 nchar=3; format datatype=dna; matrix\nx A(CT)G\ny AC{AG}\n; end;\n"
+        d.DnaCharacterMatrix.get(data=nx, schema="nexus")
+        ctx.ev("roundtrip-checked")
+        after = m1.as_string("nexml")
+        try:
+            m3 = d.DnaCharacterMatrix.get(data=after, schema="nexml")
+            ok = U.compare_models(model1, extract(m3), "dna", None) is None
+            why = "matrix differs after the round trip"
+        except core.CaseTimeout:
+            raise
+        except Exception as e:
+            ok, why = False, core.exc_brief(e)
+        if not ok:
+            ctx.violation("history:nexml|unrelated-matrix-unreadable-after-a-read-added-symbol-less-state-to-the-global-alphabet",
+                          "a DNA matrix that round-trips through NeXML stops doing so after another DNA matrix containing '(CT)' "
+                          "was read from NEXUS in the same process: %s" % why,
+                          {"nexml_changed": before != after})
     elif name == "standard-concatenated-nexml":
         # witness of the recorded concatenate() finding: cells of the result are state objects of the source alphabets
         rows = [list("0123456"), list("6543210"), list("01?-345")]
